@@ -67,6 +67,18 @@ Theorem c19_size_overshoot : forall c width fs0 rot0 now0 h,
 Proof. exact size_overshoot. Qed.
 Print Assumptions c19_size_overshoot.
 
+(* the bound holds step by step without any proviso on the clock strings -- also for a burst within the second in
+   which the rule was created or last rotated, when backup names coincide: rotation still happens (the decision
+   only compares sizes) and the current file is within the limit or is the record just written *)
+Theorem c19_size_bound_every_write : forall c s r now cur d,
+  c_kind c = SizeLimit -> 0 < c_max_size c ->
+  s_fp s = true -> fs_get (c_file c) (s_fs s) = Some (cur, d) -> s_size s = bytes cur ->
+  let s' := write c s r now in
+  exists cur' d', fs_get (c_file c) (s_fs s') = Some (cur', d') /\ s_size s' = bytes cur' /\ s_fp s' = true /\
+                  (bytes cur' <= c_max_size c \/ cur' = [r]).
+Proof. exact write_size_bound. Qed.
+Print Assumptions c19_size_bound_every_write.
+
 (* ... that is, it exceeds the maximum by less than its last record *)
 Theorem c19_size_overshoot_bound : forall max ic cnt,
   0 < max -> Forall (fun r => 0 <= rlen r) cnt -> size_ok max ic cnt ->
